@@ -51,9 +51,11 @@ function makeRealm (seed, opts) {
         try {
           if (Array.isArray(v)) return '[' + Array.prototype.map.call(v, x => ser(x, d + 1)).join(',') + ']'
           if (v instanceof Error || (v && typeof v.message === 'string' && typeof v.stack === 'string')) return 'Error<' + (v.constructor && v.constructor.name) + '>'
-          if (typeof v.then === 'function') return 'promise'
-          if (typeof v.next === 'function') return 'iterator'
-          return '{' + Object.keys(v).map(k => k + ':' + ser(v[k], d + 1)).join(',') + '}'
+          const own = (k) => { const pd = Object.getOwnPropertyDescriptor(v, k); return pd && !('value' in pd) }
+          if (!own('then') && typeof v.then === 'function') return 'promise'
+          if (!own('next') && typeof v.next === 'function') return 'iterator'
+          // data properties only: serialising must never run program code (accessors of program objects)
+          return '{' + Object.keys(v).map(k => { const pd = Object.getOwnPropertyDescriptor(v, k); return k + ':' + (pd && 'value' in pd ? ser(pd.value, d + 1) : 'accessor') }).join(',') + '}'
         } catch (e) { return '{?}' } finally { quiet-- }
     }
   }
